@@ -18,7 +18,7 @@ Obligation tags inside contract / loop / post text: `/*#<id> <C..,C..>*/`.
 
 Allowed edits of extracted text (logged): R1 splice, R2 debug_assert_eq/ne,
 R3 two-element slice patterns on a Copy array, R4 `.iter().enumerate()` loops,
-R5 attribute / derive trimming.  Anything else -> ExtractError (exit 2).
+R5 attribute / derive trimming, R7 `pub(crate)` -> `pub` on struct/enum items.  Anything else -> ExtractError (exit 2).
 """
 import os
 import re
@@ -47,6 +47,7 @@ class Overlay:
         self.contracts = {}   # fn -> dict(ret=..., text=...)
         self.loops = {}       # (fn, k) -> text
         self.proofs = {}      # (kind, fn, k) -> text
+        self.attrs = {}       # fn -> attribute text spliced in front of the fn
         self._parse()
 
     def _parse(self):
@@ -72,6 +73,7 @@ class Overlay:
                 self.contracts.update(inc.contracts)
                 self.loops.update(inc.loops)
                 self.proofs.update(inc.proofs)
+                self.attrs.update(inc.attrs)
                 i += 1
             elif d == 'kernel':
                 self.name = parts[1]
@@ -92,7 +94,7 @@ class Overlay:
                         rest.append(p)
                 self.items.append(dict(file=rest[0], kind=rest[1], name=' '.join(rest[2:]), **opts))
                 i += 1
-            elif d in ('pre', 'post', 'contract', 'loop', 'proof_start', 'proof_end', 'loop_proof_start', 'loop_proof_end'):
+            elif d in ('pre', 'post', 'contract', 'loop', 'proof_start', 'proof_end', 'loop_proof_start', 'loop_proof_end', 'attr', 'proof_at'):
                 j = i + 1
                 buf = []
                 while j < len(lines) and lines[j].strip() != '//@ end':
@@ -113,7 +115,16 @@ class Overlay:
                             ret = p[4:]
                     self.contracts[parts[1]] = dict(ret=ret, text=text, line=src_line)
                 elif d == 'loop':
-                    self.loops[(parts[1], int(parts[2]))] = dict(text=text, line=src_line)
+                    it_name = None
+                    for p in parts[3:]:
+                        if p.startswith('iter='):
+                            it_name = p[5:]
+                    self.loops[(parts[1], int(parts[2]))] = dict(text=text, line=src_line, iter=it_name)
+                elif d == 'proof_at':
+                    # //@ proof_at <fn> <nth> <anchor text...>
+                    self.proofs[('proof_at', parts[1], int(parts[2]))] = dict(text=text, line=src_line, anchor=' '.join(parts[3:]))
+                elif d == 'attr':
+                    self.attrs[parts[1]] = text
                 elif d in ('proof_start', 'proof_end'):
                     self.proofs[(d, parts[1], None)] = dict(text=text, line=src_line)
                 else:
@@ -372,7 +383,11 @@ def transform_fn(it: rs.Item, qual: str, ov: Overlay, log, used):
     where = '%s:%d %s' % (it.path, it.lines[0], qual)
     header, body = it.header, it.body
     con = ov.contracts.get(qual)
-    # --- body: loops first (indices are relative to the original body text)
+    # --- rewrites R2-R4 first (they keep the number and order of loops)
+    body = r2_debug_assert(body, log, where)
+    body = r3_slice_patterns(body, log, where)
+    body = r4_enumerate(body, log, where)
+    # --- then the ghost splices (R1)
     bm = rs.mask(body)
     loops = rs.find_loops(bm, 1, len(body) - 1)
     inserts = []  # (index, text)
@@ -381,10 +396,21 @@ def transform_fn(it: rs.Item, qual: str, ov: Overlay, log, used):
         if lp:
             used.add(('loop', qual, k))
             inserts.append((bo, splice('\n' + lp['text'] + '\n')))
+            if lp.get('iter'):
+                if kw != 'for':
+                    raise ExtractError('%s: iter= on a non-for loop' % where)
+                m = re.compile(r'\bin\b').search(bm, s, bo)
+                if not m:
+                    raise ExtractError('%s: loop %d has no `in`' % (where, k))
+                inserts.append((m.end(), splice(' %s:' % lp['iter'])))
         ps = ov.proofs.get(('loop_proof_start', qual, k))
         if ps:
             used.add(('loop_proof_start', qual, k))
-            inserts.append((bo + 1, splice(' proof {\n' + ps['text'] + '\n} ')))
+            at = bo + 1
+            m4 = re.match(r'( let \w+ = &[\w.\[\]]+?\[\w+\];)?/\*@R4>\*/', body[at:])
+            if m4:
+                at += m4.end()
+            inserts.append((at, splice(' proof {\n' + ps['text'] + '\n} ')))
         pe = ov.proofs.get(('loop_proof_end', qual, k))
         if pe:
             used.add(('loop_proof_end', qual, k))
@@ -397,9 +423,17 @@ def transform_fn(it: rs.Item, qual: str, ov: Overlay, log, used):
     if pe:
         used.add(('proof_end', qual, None))
         inserts.append((len(body) - 1, splice(' proof {\n' + pe['text'] + '\n} ')))
+    for key in list(ov.proofs):
+        if key[0] == 'proof_at' and key[1] == qual:
+            anchor, nth = ov.proofs[key]['anchor'], key[2]
+            idxs = [m.start() for m in re.finditer(re.escape(anchor), bm)]
+            if nth >= len(idxs):
+                raise ExtractError('anchor lost: %s: text %r occurrence %d not found' % (where, anchor, nth))
+            used.add(key)
+            inserts.append((idxs[nth], splice(' proof {\n' + ov.proofs[key]['text'] + '\n} ')))
     for key in list(ov.loops):
         if key[0] == qual and key[1] >= len(loops):
-            raise ExtractError('%s: loop ordinal %d not found (fn has %d loops)' % (where, key[1], len(loops)))
+            raise ExtractError('anchor lost: %s: loop ordinal %d not found (fn has %d loops)' % (where, key[1], len(loops)))
     inserts.sort(key=lambda x: -x[0])
     for idx, t in inserts:
         body = body[:idx] + t + body[idx:]
@@ -423,14 +457,15 @@ def transform_fn(it: rs.Item, qual: str, ov: Overlay, log, used):
         header = header + splice('\n' + con['text'] + '\n')
         log.append(dict(rule='R1', where=where, edit='contract spliced'))
     text = header + body
-    text = r2_debug_assert(text, log, where)
-    text = r3_slice_patterns(text, log, where)
-    text = r4_enumerate(text, log, where)
+    if qual in ov.attrs:
+        used.add(('attr', qual, None))
+        text = splice(ov.attrs[qual].strip() + '\n') + text
+        log.append(dict(rule='R1/R6', where=where, edit='attribute spliced: ' + ' '.join(ov.attrs[qual].split())))
     return text
 
 
 def invert(text: str) -> str:
-    return r4_inverse(r3_inverse(r2_inverse(strip_splices(text))))
+    return r4_inverse(r3_inverse(r2_inverse(strip_splices(text)))).replace('/*@R7*/pub', 'pub(crate)')
 
 
 def build(overlay_path: str, repo: str, out_path: str):
@@ -464,6 +499,17 @@ def build(overlay_path: str, repo: str, out_path: str):
         if spec['kind'] in ('struct', 'enum', 'type', 'const'):
             attrs = r5_attrs(it.attrs, log, where)
             body_txt = src[it.head_start:it.end]
+            if spec['kind'] in ('struct', 'enum') and 'pub(crate)' in rs.mask(body_txt):
+                # R7: Verus cannot give field accessors of a pub(crate) datatype a visibility; widen to pub
+                mk = rs.mask(body_txt)
+                n7 = mk.count('pub(crate)')
+                out7, pos7 = [], 0
+                for m7 in re.finditer(r'pub\(crate\)', mk):
+                    out7.append(body_txt[pos7:m7.start()] + '/*@R7*/pub')
+                    pos7 = m7.end()
+                out7.append(body_txt[pos7:])
+                body_txt = ''.join(out7)
+                log.append(dict(rule='R7', where=where, edit='%d x pub(crate) -> pub on a type item (visibility only)' % n7))
             chunks.append(attrs + '/*@B %s %d %d*/' % (spec['file'], it.head_start, it.end) + body_txt + '/*@E*/\n')
             checks.append((spec['file'], it.head_start, it.end))
         elif spec['kind'] == 'fn':
@@ -508,6 +554,9 @@ def build(overlay_path: str, repo: str, out_path: str):
     for (qual, k) in ov.loops:
         if ('loop', qual, k) not in used:
             raise ExtractError('anchor lost: loop %s#%d matches no extracted fn' % (qual, k))
+    for qual in ov.attrs:
+        if ('attr', qual, None) not in used:
+            raise ExtractError('anchor lost: attr for %s matches no extracted fn' % qual)
     for key in ov.proofs:
         if key not in used:
             raise ExtractError('anchor lost: %s for %s matches no extracted fn' % (key[0], key[1]))
